@@ -72,7 +72,7 @@ def harness(args, timeout=3600, env=None):
     return json.loads(last[-1]) if last else {}
 
 
-SWITCHES_EXEC = ['SwResetCanCatchField', 'SwResetExitFieldP', 'SwResetExitFieldV', 'SwResetExitElemP',
+SWITCHES_EXEC = ['SwResetCanCatchField', 'SwResetCanCatchElem', 'SwResetExitFieldP', 'SwResetExitFieldV', 'SwResetExitElemP',
                  'SwResetExitElemV', 'SwValStructArgPtr', 'SwPtrFreshCtx', 'SwNestedSourceTag', 'SwEmptyRecordSourceTag', 'SwFlatNested', 'SwRunAllTests']
 
 
